@@ -26,6 +26,14 @@ var Catalog = [][][]Matcher{
 	{{{'r', "c", ".*z"}, {'n', "b", ""}}},
 	{{{'e', "a", "1"}, {'e', "b", "x"}}},
 	{{{'r', "b", "x|y"}, {'e', "c", "z"}}},
+	// pairs of matchers whose texts coincide when name, operator and pattern are simply concatenated
+	// ("a" "=" "~1" / "a" "=~" "1"; "a=" "=" "1" / "a" "=" "=1"): distinct matchers all the same, alone and
+	// side by side in one silence (anything keyed by such a text is shared process-wide, so both members
+	// of a pair have to occur within one engine run - the two-set entries make that certain within one case)
+	{{{'e', "a", "~1"}}},
+	{{{'r', "a", "1"}}},
+	{{{'e', "a", "~1"}}, {{'r', "a", "1"}}},
+	{{{'e', "a=", "1"}}, {{'e', "a", "=1"}}},
 }
 
 // Panel of label sets.
@@ -40,6 +48,8 @@ var Panel = []map[string]string{
 	{"a": "1", "b": "y", "c": "zz"},
 	{"a": "1", "b": "x"},
 	{"a": "2", "b": "x", "c": "z"},
+	{"a": "~1"},
+	{"a=": "1"},
 }
 
 func PanelTok(r *rand.Rand) string { return "L" + LsStr(hx.Pick(r, Panel)) }
